@@ -97,6 +97,18 @@ class LineFault:
         return self.local_trace
 
 
+_corpus = None
+
+
+def corpus_smiles():
+    global _corpus
+    if _corpus is None:
+        import csv
+        with open(os.path.join(env.REPO, 'pach', 'lipophilicity.csv')) as f:
+            _corpus = [row['smiles'] for row in csv.DictReader(f)]
+    return _corpus
+
+
 def _element_class(sym):
     from chython.periodictable import Element
     return Element.from_symbol(sym)
@@ -264,13 +276,23 @@ class Sim:
             return None
         from chython import smiles
         from chython.containers import MoleculeContainer
-        s = SEEDS[op['seed'] % len(SEEDS)]
+        limit = MAX_ATOMS
+        if 'corpus' in op:
+            # drug-like molecules of the shipped corpus in Kekule form (bigger: up to 40 atoms)
+            cs = corpus_smiles()
+            s = cs[op['corpus'] % len(cs)]
+            limit = 40
+        else:
+            s = SEEDS[op['seed'] % len(SEEDS)]
         try:
             mol = smiles(s) if s else MoleculeContainer()
+            if 'corpus' in op:
+                mol.kekule()
+                self.probes['corpus_seed'] += 1
         except Exception as e:
             self.probes['seed_parse_failed'] += 1
             return None
-        if len(mol) > MAX_ATOMS or any(b.order == 4 for *_, b in mol.bonds()):
+        if len(mol) > limit or any(b.order == 4 for *_, b in mol.bonds()):
             self.probes['seed_out_of_domain'] += 1
             return None
         model = Model()
@@ -364,7 +386,7 @@ class Sim:
             return None
         h = self.handles[hi]
         mol, model = h.mol, (tx if tx is not None else h.model)
-        if len(model.atoms) >= MAX_ATOMS:
+        if len(model.atoms) >= self.cfg.get('max_atoms', MAX_ATOMS):
             return None
         arg, n, new_n, spec, valid = self._add_atom_args(op, model)
         if tx is not None:
@@ -534,7 +556,7 @@ class Sim:
         if hi is None:
             return None
         a, b = self.handles[hi], self.handles[gi]
-        if len(a.model.atoms) + len(b.model.atoms) > MAX_ATOMS + 4:
+        if len(a.model.atoms) + len(b.model.atoms) > self.cfg.get('max_atoms', MAX_ATOMS) + 4:
             return None
         mode = op.get('mode', 'or')
         collide = bool(a.model.atoms.keys() & b.model.atoms.keys())
@@ -967,7 +989,12 @@ def draw_config(rng, tier):
         'tx_fault_p': rng.choice([0.0, 0.3, 0.5, 0.5, 0.8]),
         'line_fault_share': rng.choice([0.0, 0.3, 0.6, 1.0]),
         'opaque': False,
+        'corpus_start': rng.random() < (0.2 if tier == 'thorough' else 0.06),
     }
+    if cfg['corpus_start']:
+        cfg['obs_limit'] = 12          # bigger molecules: sample the observers
+        cfg['max_atoms'] = 44
+        cfg['max_handles'] = min(cfg['max_handles'], 2)
     w = dict(BASE_W)
     for k in list(w):
         r = rng.random()
@@ -1139,6 +1166,8 @@ def generate_and_run(seed, tier, probes):
         for step in range(n + 1):
             if step == 0:
                 op = {'op': 'new', 'seed': st.workload.randrange(len(SEEDS)), 'c': st.workload.randrange(1 << 30)}
+                if cfg.get('corpus_start'):
+                    op['corpus'] = st.workload.randrange(4200)
             else:
                 op = gen_op(sim, st.workload, st.fault, cfg)
             ops.append(op)
